@@ -118,7 +118,7 @@ def build_model(case, variant=0):
     outs = []
     for i in case["outs"]:
         m = case["meta"][i - 1]
-        outs.append(h.make_tensor_value_info(vname(case, i), T.FLOAT if m["k"] == "f" else T.INT64, [None] * m["rank"]))
+        outs.append(h.make_tensor_value_info(vname(case, i), {"f": T.FLOAT, "i": T.INT64, "j": T.INT32}[m["k"]], [None] * m["rank"]))
     g = h.make_graph(nodes, "c09", inputs, outs, initializer=inits)
     model = h.make_model(g, opset_imports=[h.make_opsetid("", 18)])
     model.ir_version = 9
@@ -316,7 +316,7 @@ def compare_abstract(case, real):
 # ------------------------------------------------------------------ worker
 def enc(a):
     a = np.asarray(a)
-    if a.dtype == np.int64:
+    if a.dtype.kind == "i":
         return [list(a.shape), [int(x) for x in a.reshape(-1)]]
     return [list(a.shape), []]
 
